@@ -40,6 +40,8 @@ struct Hello {
     /// an element named `capability` but in a foreign namespace inside <capabilities>, carrying this URI
     foreign_capability: Option<String>,
     prefix: bool,
+    /// the hello starts with an XML declaration (as in every RFC 6242 example)
+    decl: bool,
     server_waits: bool,
     client_send_stall: usize,
 }
@@ -113,6 +115,7 @@ fn gen_hello(ctx: &mut Ctx) -> Hello {
         dup_capabilities,
         foreign_capability,
         prefix: ctx.pick(2) == 1,
+        decl: ctx.pick(3) == 0,
         server_waits: ctx.pick(2) == 1,
         client_send_stall: ctx.pick(3),
     }
@@ -155,13 +158,11 @@ fn hello_bytes(h: &Hello) -> Vec<u8> {
     if !h.sid_first {
         root = root.kids(sid_elems);
     }
-    let doc = if h.prefix {
-        // site 1 is the namespace decision of the root element (site 0 is the XML declaration)
-        Ser::new(Style::Only(vec![1])).document(&root)
-    } else {
-        Ser::new(Style::Canonical).document(&root)
-    };
-    debug_assert!(!h.prefix || doc.starts_with("<p0:hello"), "{doc}");
+    // site 0 is the XML declaration, site 1 the namespace decision of the root element
+    let sites: Vec<usize> = [(h.decl, 0), (h.prefix, 1)].iter().filter(|(on, _)| *on).map(|(_, s)| *s).collect();
+    let doc = if sites.is_empty() { Ser::new(Style::Canonical).document(&root) } else { Ser::new(Style::Only(sites)).document(&root) };
+    debug_assert!(!h.prefix || doc.contains("<p0:hello"), "{doc}");
+    debug_assert!(!h.decl || doc.starts_with("<?xml"), "{doc}");
     let _ = Rw::NsPrefix;
     format!("{doc}{MARKER}").into_bytes()
 }
@@ -305,7 +306,7 @@ pub static C12: PropSpec = PropSpec {
     runs: |t| if t == Tier::Thorough { 20_000_000 } else { 150_000 },
     enumerated: |t| crate::props::c12_tls::count(t),
     run,
-    rule: "seeded: server hellos from the matrix base {1.0, 1.1, both, neither} x other capabilities x session-id {valid incl. 1 and 2^32-1, 0, 2^32, negative, missing, duplicated, zero-padded, non-numeric, empty} x namespace prefix/default x element order x wrong namespace / missing <capabilities> / a second <capabilities> element with another list / an element named capability in a foreign namespace (it may be ignored or the hello refused, but it never counts as a capability); the hello is available before the client's hello is accepted, or the server waits for the client hello first; client send back-pressure; permuted scheduling with spurious polls. enumerated: real TLS transport against a peer that uses RFC 6242 chunked framing when both hellos advertise :base:1.1. Non-trivial = the hello should establish a session; distinct = distinct event-log hash",
+    rule: "seeded: server hellos from the matrix base {1.0, 1.1, both, neither} x other capabilities x session-id {valid incl. 1 and 2^32-1, 0, 2^32, negative, missing, duplicated, zero-padded, non-numeric, empty} x namespace prefix/default x with or without an XML declaration x element order x wrong namespace / missing <capabilities> / a second <capabilities> element with another list / an element named capability in a foreign namespace (it may be ignored or the hello refused, but it never counts as a capability); the hello is available before the client's hello is accepted, or the server waits for the client hello first; client send back-pressure; permuted scheduling with spurious polls. enumerated: real TLS transport against a peer that uses RFC 6242 chunked framing when both hellos advertise :base:1.1. Non-trivial = the hello should establish a session; distinct = distinct event-log hash",
     components: &[
         ("netconf session.rs, hello.rs, capabilities.rs", "real"),
         ("transport", "seeded part: in-memory stub; enumerated part: real tls.rs over loopback TCP"),
